@@ -272,9 +272,15 @@ func c05PoolBFS(driver string, depth int) vh.Unit {
 	name := fmt.Sprintf("pool-bfs/%s/d%d", driver, depth)
 	return vh.Unit{Name: name, Run: func(u *vh.U) {
 		vsched.SetVirtualClock(true)
+		type captured struct {
+			sig   string
+			nonce int64
+			req   pool.UpdateRequest
+		}
 		type world struct {
 			pw    *vh.PoolWorld
 			model *nonceModel
+			last  *captured // the last vipnode_update of A that was honoured
 		}
 		ids := vh.Identities()
 		A, B, W := ids[0], ids[1], ids[4]
@@ -293,6 +299,8 @@ func c05PoolBFS(driver string, depth int) vh.Unit {
 				for _, k := range c05Kinds {
 					evs = append(evs, "update A "+k, "update B "+k, "addnode W "+k, "withdraw W "+k, "updold A "+k)
 				}
+				// the captured request submitted again with the identity spelled differently
+				evs = append(evs, "respelled A upper", "respelled A 0x", "respelled A mixed")
 				return append(evs, "tick 15m", "tick 16m")
 			},
 			Apply: func(wi interface{}, ev string, judge bool, hist []string) {
@@ -301,6 +309,32 @@ func c05PoolBFS(driver string, depth int) vh.Unit {
 				if f[0] == "tick" {
 					d, _ := time.ParseDuration(f[1])
 					vsched.Advance(d)
+					return
+				}
+				if f[0] == "respelled" {
+					if w.last == nil {
+						return
+					}
+					id := A.NodeID
+					switch f[2] {
+					case "upper":
+						id = strings.ToUpper(id)
+					case "0x":
+						id = "0x" + id
+					case "mixed":
+						id = strings.ToUpper(id[:1]) + id[1:len(id)-1] + strings.ToUpper(id[len(id)-1:])
+					}
+					if id == A.NodeID {
+						return
+					}
+					_, err := w.pw.Pool.Update(context.Background(), w.last.sig, id, w.last.nonce, w.last.req)
+					if _, refused := err.(pool.VerifyFailedError); !refused && judge {
+						u.Observe("respelled honoured")
+						u.Violate("pool-nonce/update/replay-honoured-under-respelled-identity",
+							fmt.Sprintf("history %v: the honoured vipnode_update of A, submitted again with its node id spelled %q..., passed verification (err=%v)", hist, id[:6], err), vh.BFSReplay(name, hist))
+					} else if judge {
+						u.Observe("respelled refused")
+					}
 					return
 				}
 				n := c05Nonce(f[2])
@@ -314,7 +348,11 @@ func c05PoolBFS(driver string, depth int) vh.Unit {
 					}
 					idname = id.NodeID
 					req := pool.UpdateRequest{}
-					_, err = w.pw.Pool.Update(context.Background(), id.SignNode("vipnode_update", n, req), id.NodeID, n, req)
+					sig := id.SignNode("vipnode_update", n, req)
+					_, err = w.pw.Pool.Update(context.Background(), sig, id.NodeID, n, req)
+					if _, refused := err.(pool.VerifyFailedError); !refused && id == A {
+						w.last = &captured{sig, n, req}
+					}
 				case "updold": // signed in the deprecated format (old agents)
 					idname = A.NodeID
 					req := pool.UpdateRequest{Peers: []string{}, BlockNumber: 3}
